@@ -313,7 +313,11 @@ func genKey(t *rapid.T, kind string) *Val {
 	var v Val
 	switch kind {
 	case "um":
-		switch choose(t, "umkey", 8, "s", 4, "i", 2, "f", 1, "b", 2, "n", 2, "l", 1, "m") {
+		switch choose(t, "umkey", 8, "s", 4, "i", 2, "f", 1, "b", 2, "n", 3, "l", 1, "m", 1, "ll", 2, "hs") {
+		case "ll":
+			v = Val{K: "l", L: []Val{{K: "l", L: []Val{{K: "i", I: 1}, {K: "i", I: 2}}}}}
+		case "hs":
+			v = Val{K: "hs"}
 		case "s":
 			v = Val{K: "s", S: pick(t, "ks", keyStrPool...)}
 		case "i":
@@ -330,7 +334,9 @@ func genKey(t *rapid.T, kind string) *Val {
 			v = Val{K: "m", MK: []Val{{K: "s", S: "a"}}, MV: []Val{{K: "i", I: 1}}}
 		}
 	case "mis":
-		switch choose(t, "miskey", 9, "i", 3, "f", 2, "s", 1, "b", 1, "n", 1, "l") {
+		switch choose(t, "miskey", 9, "i", 3, "f", 2, "s", 1, "b", 1, "n", 1, "l", 1, "hs") {
+		case "hs":
+			v = Val{K: "hs"}
 		case "i":
 			v = Val{K: "i", I: pick(t, "ki", int64(1), int64(2), int64(65), int64(0), int64(-1))}
 		case "f":
@@ -345,7 +351,9 @@ func genKey(t *rapid.T, kind string) *Val {
 			v = Val{K: "l", L: []Val{{K: "i", I: 1}}}
 		}
 	default: // msi, st.E
-		switch choose(t, "msikey", 10, "s", 3, "i", 1, "f", 1, "b", 1, "n", 1, "l") {
+		switch choose(t, "msikey", 10, "s", 3, "i", 1, "f", 1, "b", 1, "n", 1, "l", 1, "hs") {
+		case "hs":
+			v = Val{K: "hs"}
 		case "s":
 			v = Val{K: "s", S: pick(t, "ks", keyStrPool...)}
 		case "i":
@@ -360,6 +368,8 @@ func genKey(t *rapid.T, kind string) *Val {
 			v = Val{K: "l", L: []Val{{K: "i", I: 1}}}
 		}
 	}
+	// provenance of the key operand: literal, read from a container, returned by a function
+	v.W = choose(t, "kwrap", 5, "", 3, "elem", 2, "id")
 	return &v
 }
 
@@ -425,9 +435,11 @@ func genInit(t *rapid.T, kind string, exact bool) Init {
 				in.MK = append(in.MK, Val{K: "i", I: pick(t, "ki", int64(1), int64(2), int64(65), int64(0))})
 				in.MV = append(in.MV, genStr(t))
 			}
-			if !exact && kind != "um" {
+			if !exact {
 				in.MK[i] = *genKey(t, kind)
-				in.MV[i] = genElemFor(t, elemKind(kind))
+				if kind != "um" {
+					in.MV[i] = genElemFor(t, elemKind(kind))
+				}
 			}
 		}
 		return in
@@ -474,6 +486,28 @@ func sameKindSlots(kinds []string, kind string) []int {
 		}
 	}
 	return out
+}
+
+// sliceSlots lists the slots usable as a variable right operand of + for a target kind:
+// mostly slots of the same slice type, sometimes any slice slot (element conversion).
+func sliceSlots(kinds []string, kind string) []int {
+	same := sameKindSlots(kinds, kind)
+	var all []int
+	for i, k := range kinds {
+		if classOfKind(k) == "slice" {
+			all = append(all, i)
+		}
+	}
+	if len(same) > 0 && len(all) > len(same) {
+		// weight: same-type slots three times
+		out := append([]int{}, all...)
+		out = append(out, same...)
+		return append(out, same...)
+	}
+	if len(same) > 0 {
+		return same
+	}
+	return all
 }
 
 func genSliceForm(t *rapid.T, st *Step) {
@@ -552,6 +586,18 @@ func genStep(t *rapid.T, kinds []string, slot int, fld string) Step {
 					st.Form, st.W = "=+", d
 				}
 			}
+			// right operand = another live slice variable (Go: append(left, right...))
+			if rs := sliceSlots(kinds, kind); len(rs) > 0 && unbiased(t, "varop?", 10) < 4 {
+				r := rs[unbiased(t, "rslot", len(rs))]
+				st.R = &r
+				// ... appended to a fresh empty left operand: `w = [] + v`, `w = make(T, 0) + v`
+				if plain && unbiased(t, "emptyleft?", 10) < 5 {
+					if d := pickDest(); d >= 0 {
+						st.Form, st.W = "=+", d
+						st.LE = choose(t, "le", 4, "lit", 3, "make0", 2, "makecap")
+					}
+				}
+			}
 		case "slice":
 			genSliceForm(t, &st)
 			if rapid.IntRange(0, 9).Draw(t, "bind?") < 8 {
@@ -587,6 +633,10 @@ func genStep(t *rapid.T, kinds []string, slot int, fld string) Step {
 			} else {
 				v := genAppendOperand(t, kind)
 				st.V = &v
+				if rs := sliceSlots(kinds, kind); len(rs) > 0 && unbiased(t, "varop?", 10) < 3 {
+					r := rs[unbiased(t, "rslot", len(rs))]
+					st.R = &r
+				}
 			}
 		case "new":
 			in := genInit(t, kind, rapid.Bool().Draw(t, "exact"))
